@@ -355,7 +355,10 @@ def plan_t(ctx, units, embs):
         pats = all_patterns(L)
         for order in (1, 2):
             for pbc in (False, True):
-                sel = combos if ctx.tier == "thorough" and L <= 8 else [combos[(k + i * 4) % len(combos)] for i in range(2)]
+                if ctx.tier == "thorough":
+                    sel = combos if L <= 8 else [combos[(k + i * 4) % len(combos)] for i in range(2)]
+                else:
+                    sel = [combos[(k + i * 4) % len(combos)] for i in range(2 if L <= 7 else 1)]
                 for nd, ax in sel:
                     k += 1
                     rnd = _rnd(ctx.seed, 4, k)
@@ -424,11 +427,19 @@ def run(ctx):
     df = core.import_library()
     embs = embed.for_tier(ctx.tier, ctx.seed)
     r = ctx.model("MC_C04", f"C04_{ctx.tier}.cfg", dump=True)
+    if r.coverage:  # thorough tier runs with -coverage 1: every action must have fired (vacuity guard)
+        dead = [a for a in ('QDiffUnit', 'QDiffData') if r.coverage.get(a, (0, 0))[0] == 0]
+        if dead:
+            raise core._tlc.MachineryError(f"actions never taken in the model: {dead}")
     states = []
     if r.ok:
         states = ctx.dump_states(r)
         if len(states) != r.distinct:
             raise core._tlc.MachineryError(f"dump has {len(states)} states, TLC reports {r.distinct}")
+    # model-level witness of D13 (informational): today's periodic algorithm, transcribed, violates shift commutation
+    w = core._tlc.run("MC_C04", "C04_d13.cfg", ctx.scratch, workers=2, tag="d13")
+    ctx.notes["model_witness_D13_todays_periodic_code_violates_ShiftCommutes"] = int(
+        "D13_TodaysCodeCommutesWithShifts" in w.violated)
     rjobs, units = plan_r(ctx, states, embs)
     tjobs = plan_t(ctx, units, embs)
     evdir = os.path.join(ctx.scratch, "events")
@@ -511,6 +522,8 @@ def judge(ctx, traces, nbatch=None):
             e = t["ev"][l - 1]
             if clause in ("shape", "orbit-is-rolled-validity"):
                 raise core._tlc.MachineryError(f"malformed extraction event: {clause} in trace {tid}")
+            if clause == "C04_KeepsMeta":
+                cls = e["meta"][first - 1]["name"]
             ctx.violation(key_of(clause, e["pbc"], cls, t["tag"]),
                           f"observed operator of Field.diff rejected by C04Trace: {clause} ({cls}), {cnt} case(s) in the batch",
                           witness_of(t, e, clause, cls, first))
